@@ -21,6 +21,10 @@ PLAN = {
                 families=[("sb_two", 3000, 30000)], only={6, 10}),
     "C03": dict(mode="own", families=[("sb_one", 3000, 30000)], ignore={10}),
     "C04": dict(mode=None, families=[]),
+    "C06": dict(mode=None, families=[]),
+    "C07": dict(mode=None, families=[]),
+    "C10": dict(mode=None, families=[]),
+    "C14": dict(mode=None, families=[]),
     "C12": dict(mode=dict(origin=None, check_spec=False, no_conflicted=False, cov_every_step=False),
                 families=[("sb_one", 1500, 20000), ("sb_two", 1500, 20000)], only={2, 3}),
 }
